@@ -4,7 +4,7 @@ Oracle: for a generated Loki expression tree T over typed variables, value(fgen(
 valuation where T is defined.  value(T) comes from the independent exprlab evaluator applied to the *structure*
 of T (validated on every tree against gfortran / gcc running an independently printed, fully parenthesised
 rendering of T); value(text) comes from gfortran (resp. gcc) evaluating the text Loki printed, and, as a second
-opinion, from re-parsing the text with the FP frontend and evaluating the re-parsed tree.
+opinion in half of the Fortran cases, from re-parsing the text with the FP frontend and evaluating the re-parsed tree.
 """
 import shutil
 
@@ -37,7 +37,7 @@ REQUIRED_COUNTERS = {'trees_compared_fortran': 800, 'trees_compared_c': 300, 'ev
 ASSUMPTIONS = ['gfortran/gcc 12 at -O0 define the target-language value of a text',
                'a tree is only judged at valuations where the independent evaluator finds it defined and well-conditioned',
                'the FP re-parse is a second opinion: texts it cannot parse but gfortran accepts (a*-b) are judged by gfortran']
-BUDGET_S = {'quick': 300, 'thorough': 2400}
+BUDGET_S = {'quick': 600, 'thorough': 3000}
 CASE_TIMEOUT_S = 900
 
 NTREES = 24
@@ -64,8 +64,7 @@ def left_minus(c, env):   # pylint: disable=unused-argument
 
 AVOID_F = (('Quotient', 'denominator', 'Product'), ('Quotient', 'denominator', 'Quotient'), ('Quotient', 'denominator', 'Neg'),
            ('Product', 'nonfirst', 'Quotient', LSD), ('Product', 'nonfirst', 'Product', LSD), ('Product', 'nonfirst', 'Neg', LSD),
-           ('Power', 'base', 'Power'), ('Power', 'base', 'NegIntLiteral'), ('Power', 'base', 'NegFloatLiteral'),
-           ('LogicalNot', 'operand', 'LogicalNot'))
+           ('Power', 'base', 'Power'), ('Power', 'base', 'NegIntLiteral'), ('Power', 'base', 'NegFloatLiteral'))
 AVOID_C = (('Product', 'nonfirst', 'Quotient', LSD), ('Product', 'nonfirst', 'Product', LSD), ('Product', 'nonfirst', 'Neg', LSD),
            ('Product', 'nonfirst', 'Call.mod'), ('Quotient', 'denominator', 'Call.mod'),
            ('Neg', 'operand', 'Neg'), ('Neg', 'operand', 'NegIntLiteral'), ('Neg', 'operand', 'NegFloatLiteral'),
@@ -273,7 +272,9 @@ def classify_many(judge, asts, prefix):
         wit = {'minimal_subtree': X.ref_fortran(node) if judge.target == 'fortran' else str(node),
                'printed': res[node][1], 'observed': str(res[node][3])[:200], 'expected': str(res[node][2])[:200]}
         key = None
-        if judge.target == 'c' and '--' in str(res[node][1]):
+        if judge.target == 'c' and node[0] == 'real' and 'd' in node[1].lower():
+            key = f'{prefix}:FloatLiteral:d-exponent'
+        elif judge.target == 'c' and '--' in str(res[node][1]):
             # mechanism recognised from the printed text itself: unary minus glued to a text that starts with '-'
             # (the children print without '--' on their own, otherwise they would be the minimal failing node)
             key = f'{prefix}:Neg.operand<-minus-prefixed-text:decrement-token'
@@ -372,7 +373,7 @@ def run_case(idx, rng, tier, ctx):
         bump('tree_valuation_pairs', sum(sum(m) for m in masks) // 2)
         # second opinion: FP re-parse of the printed Fortran
         fp = None
-        if target == 'fortran':
+        if target == 'fortran' and rng.random() < 0.5:
             fp = X.fp_parse([it['text'] for it in items], env,
                             [X.static_type_safe(it['ast'], env) for it in items])
         failing = []
@@ -404,6 +405,8 @@ def run_case(idx, rng, tier, ctx):
                         for v in vals:
                             try:
                                 e2.append(ev(a2, v))
+                            except X.Overflow:
+                                e2.append('overflow')    # depends on the association order: no opinion
                             except X.Undefined:
                                 e2.append(None)
                             except X.Fragile:
@@ -427,11 +430,19 @@ def run_case(idx, rng, tier, ctx):
         keys = {}
         for k, it, verdict in failing:
             bump('mismatching_trees')
-            if target == 'c' and isinstance(out[2 * k + 1], dict) and any(
-                    n[0] == 'pow' and X.static_type_safe(n, env) == 'i4' for _p, n in X.subtrees(it['ast'])):
+            if target == 'c' and any(n[0] == 'pow' and X.static_type_safe(n, env) == 'i4'
+                                     for _p, n in X.subtrees(it['ast'])):
+                # known mechanism with its own model: cgen prints integer powers as double pow().  Recognised when
+                # the observed values are exactly those of the tree with double-valued powers, or when gcc rejects
+                # the text because a double reached the integer-only % operator
                 try:
-                    if compare(values_of(ctx['ev_cpow'], it['ast'], vals), out[2 * k + 1]) is None:
-                        keys[k] = ('cprint:int-Power-evaluated-as-double-pow', {})
+                    err = judge.batch.first_error.get(2 * k + 1, '')
+                    if isinstance(out[2 * k + 1], dict):
+                        explained = compare(values_of(ctx['ev_cpow'], it['ast'], vals), out[2 * k + 1]) is None
+                    else:
+                        explained = 'invalid operands to binary %' in err and 'double' in err
+                    if explained:
+                        keys[k] = ('cprint:int-Power-evaluated-as-double-pow', {'gcc': err[:300]})
                         continue
                 except X.EvalError:
                     pass
